@@ -305,8 +305,16 @@ def check(ctx: Ctx):
         ctx.check(len(cs) == 1 and [norm(a) for a in cs[0].args] == [pfx, "budget + spent", "paths"], "R-BUDGET", f"{f.name}: candidates within budget + spent", f,
                   cs[0] if cs else f.node, "the total affordable path cost is the remaining budget plus what was already spent")
     inc = [n for n in walk_no_nested(oan.node) if isinstance(n, ast.Assign) and norm(n.targets[0]) == "budget" and isinstance(n.value, ast.Call) and call_name(n.value) == "min"]
-    ctx.check(len(inc) == 1 and "for c, p in paths" in norm(inc[0].value), "R-BUDGET", "budget increased to the cheapest remaining path", oan, inc[0] if inc else oan.node,
-              "when nothing is affordable the owner restarts with the cost of the cheapest known path")
+    okb_ = len(inc) == 1 and "for c, p in paths" in norm(inc[0].value)
+    if okb_:
+        ge = inc[0].value.args[0]
+        okb_ = isinstance(ge, (ast.GeneratorExp, ast.ListComp)) and norm(ge.elt) == "c" and len(ge.generators) == 1 and \
+            [norm(i) for i in ge.generators[0].ifs] in ([], ["p != rq_path"], ["rq_path != p"]) and not inc[0].value.keywords
+        fsb = {(norm(t), q) for t, q in facts_at(FuncFacts(oan.node), inc[0])}
+        okb_ = okb_ and (("paths", True) in fsb or ("not paths", False) in fsb)
+    ctx.check(okb_, "R-BUDGET", "budget increased to the cheapest remaining path (over all known paths but the one just answered), only when some path is left", oan, inc[0] if inc else oan.node,
+              "when nothing is affordable the owner restarts with the cost of the cheapest known path; a filter on the cost itself (e.g. `c > budget`) is empty when the only path "
+              "left ties with the current budget: min() raises in the handler and replication never reports done")
 
     # ---- R-ROLES --------------------------------------------------------------------------------------------------
     for callee in ("on_replicate_request", "on_replicate_answer", "_send_request", "_send_answer", "_visit_path"):
@@ -375,6 +383,7 @@ def _block_of(func_node, stmt):
 _U = "pydcop/replication/dist_ucs_hostingcosts.py"
 _P = "pydcop/replication/path_utils.py"
 VARIANTS = [
+    ("budget_increase_must_be_strict", _U, "            budget = min(c for c, p in paths if p != rq_path)", "            budget = min(c for c, p in paths if c > budget)", "break", "R-BUDGET"),
     ("class_memo_back", _U, "    def _max_footprint(self):", "    memoize_footprint = {}\n\n    def _max_footprint(self):", "break", "R-CACHE"),
     ("owner_keyed_dict", _U, "            total_footprint = sum(\n                f for a, f in self._hosted_replicas.values() if a in selected\n            )", "            agt_footprints = {a: f for a, f in self._hosted_replicas.values()}\n            total_footprint = sum(\n                f for a, f in agt_footprints.items() if a in selected\n            )", "break", "R-WORSTCASE"),
     ("k_not_minus_one", _U, "        max_agt = min(self.k_target - 1, len(tentative_agents))\n        max_footprint = 0\n        for selected in itertools.combinations(tentative_agents, max_agt):\n            total_footprint", "        max_agt = min(self.k_target - 2, len(tentative_agents))\n        max_footprint = 0\n        for selected in itertools.combinations(tentative_agents, max_agt):\n            total_footprint", "break", "R-WORSTCASE"),
